@@ -30,6 +30,8 @@ type rreq struct {
 }
 
 type rresp struct {
+	Header []byte `json:"header"`
+	Corr   int32  `json:"corr"`
 	Status int    `json:"status"`
 	Off    int    `json:"off"`
 	Panic  string `json:"panic"`
@@ -62,6 +64,10 @@ func childRecords(l []byte) map[string]interface{} {
 	var r rreq
 	if err := json.Unmarshal(l, &r); err != nil {
 		return map[string]interface{}{"status": -1, "panic": err.Error()}
+	}
+	if r.Kind == "recv" {
+		rr := sarama.VerifBrokerReceive(int16(r.N), r.Buf)
+		return map[string]interface{}{"status": rr.Status, "panic": rr.Panic, "header": rr.Header, "corr": rr.Corr, "off": 0, "term": "DAccepted"}
 	}
 	d := sarama.VerifDecodeValue(r.Kind, r.Buf, r.Start, r.N, r.Aux)
 	out := map[string]interface{}{"status": d.Status, "off": d.Off, "panic": d.Panic}
@@ -292,6 +298,30 @@ func runRecordsMalformed(out string, seed int64, n int, allBits bool, ch *w1.Chi
 		}
 		add(rinput{"reqhdr", rb, 0, nil, "random", ""})
 	}
+	// response frames: boundary lengths for both header versions, decoded by responseHeader.decode and received end to
+	// end by a real Broker (responseReceiver sizes the body buffer as length - headerLength + 4)
+	for _, ver := range []int{0, 1} {
+		for _, l := range []int64{-1, 0, 3, 4, 5, 6, 8, 9, 10, 100, 100 << 20, 100<<20 + 1, math.MaxInt32, math.MinInt32} {
+			for _, tag := range []byte{0, 1} {
+				frame := make([]byte, 9)
+				binary.BigEndian.PutUint32(frame, uint32(l))
+				binary.BigEndian.PutUint32(frame[4:], 7)
+				frame[8] = tag
+				if tag == 0 || ver == 1 {
+					add(rinput{"resphdr", frame, ver, nil, "field", fmt.Sprintf("header v%d, frame length %d, tag byte %d", ver, l, tag)})
+					add(rinput{"resphdr", frame[:8], ver, nil, "field", fmt.Sprintf("header v%d, frame length %d, 8 bytes", ver, l)})
+				}
+				if tag == 1 && ver == 0 {
+					continue
+				}
+				body := l - 5
+				if body < 0 || body > 12 {
+					body = 3
+				}
+				add(rinput{"recv", append(frame, make([]byte, body)...), ver, nil, "field", fmt.Sprintf("Broker receives a frame of declared length %d (header v%d, tag byte %d)", l, ver, tag)})
+			}
+		}
+	}
 	// random bytes
 	for i := 0; i < n*4; i++ {
 		buf := g.Bytes(r.Intn(90))
@@ -325,7 +355,7 @@ func runRecordsMalformed(out string, seed int64, n int, allBits bool, ch *w1.Chi
 			switch {
 			case rs.Status == 100:
 				class = "panic"
-			case rs.Alloc > allocCap+64*decompressed && len(in.buf) < 1024:
+			case in.kind != "recv" && rs.Alloc > allocCap+64*decompressed && len(in.buf) < 1024:
 				class = "alloc"
 				rs.Status = 101
 			case rs.NilRec:
@@ -333,7 +363,18 @@ func runRecordsMalformed(out string, seed int64, n int, allBits bool, ch *w1.Chi
 			}
 		}
 		var mon *cf.Monitor
-		if class != "" {
+		if in.kind == "recv" {
+			if rs.Header == nil {
+				continue // the loopback server did not get to answer
+			}
+			// (a body buffer up to MaxResponseSize is the response size cap at work, not an allocation out of proportion)
+			if class != "" || rs.Status == 102 {
+				if class == "" {
+					class = "hang"
+				}
+				mon = &cf.Monitor{Signature: fmt.Sprintf("c10:%s:responseReceiver:v%d-header-length", class, in.n), What: fmt.Sprintf("Broker.responseReceiver: %s on %s %s", class, in.note, rs.Panic)}
+			}
+		} else if class != "" {
 			mon = &cf.Monitor{Signature: fmt.Sprintf("records:%s:%s", class, in.kind), What: fmt.Sprintf("%s decoding %s from %d bytes (%s %s) %s", class, in.kind, len(in.buf), in.mut, in.note, rs.Panic)}
 		}
 		tab := w1.NewTable()
@@ -342,6 +383,8 @@ func runRecordsMalformed(out string, seed int64, n int, allBits bool, ch *w1.Chi
 		switch in.kind {
 		case "control":
 			dk = "(KControl " + w1.CoqBytes(in.aux) + ")"
+		case "recv":
+			dk, ctor = fmt.Sprintf("(KReceive %d %s)", in.n, cf.Z(int64(rs.Corr))), ""
 		case "resphdr":
 			dk = fmt.Sprintf("(KRespHeader %d)", in.n)
 		case "reqhdr":
@@ -356,8 +399,12 @@ func runRecordsMalformed(out string, seed int64, n int, allBits bool, ch *w1.Chi
 		if rs.Status == 0 {
 			val = cf.Some("(" + ctor + " " + rs.Term + ")")
 		}
+		cbuf := in.buf
+		if in.kind == "recv" {
+			cbuf = rs.Header
+		}
 		term := fmt.Sprintf("{| d2_kind := %s; d2_buf := %s; d2_start := 0; d2_tab := %s; d2_status := %d; d2_off := %d; d2_val := %s |}",
-			dk, w1.CoqBytes(in.buf), tab.Coq(), rs.Status, rs.Off, val)
+			dk, w1.CoqBytes(cbuf), tab.Coq(), rs.Status, rs.Off, val)
 		wd.Add(term, cf.Sidecar{Case: map[string]interface{}{"kind": in.kind, "buf": w1.Hex(in.buf), "mutation": in.mut, "note": in.note, "status": rs.Status, "off": rs.Off, "alloc": rs.Alloc, "value": w1.ShortTerm(rs.Term)},
 			Kind: "malformed-" + in.kind + "-" + in.mut, Nontrivial: len(in.buf) > 17, Monitor: mon})
 	}
